@@ -12,7 +12,7 @@ CONFIG = {
              'sample of builds with a literal from-scratch twin run of the library on a cleaned '
              'copy; evaluations = builds+cleans judged; distinct_nontrivial = distinct '
              '(program shape, step-kind sequence) histories with >=1 cache hit and >=1 justified miss'),
-    'gates': ['swap_cases', 'overlay_cases', 'builds_committed', 'builds_rolled_back', 'stat:hits_top', 'stat:must_run', 'twin_runs'],
+    'gates': ['ladder_cases', 'swap_cases', 'overlay_cases', 'builds_committed', 'builds_rolled_back', 'stat:hits_top', 'stat:must_run', 'twin_runs'],
 }
 
 KINDS = {'result', 'tree', 'twin_result', 'twin_tree', 'clean_tree'}
@@ -29,6 +29,8 @@ def make_cfg(rng):
 def run_shard(sh):
     from .swapcases import run_swap_cases
     run_swap_cases(sh, select, 'C01', nested_cache=sh.idx % 2 == 1)
+    from .laddercases import run_ladder_cases
+    run_ladder_cases(sh, select)
     from .overlaycases import run_overlay_cases
     run_overlay_cases(sh, select, stride=2 if sh.tier == 'quick' else 1)
     run_histories(sh, select=select, make_cfg=make_cfg,
